@@ -198,13 +198,16 @@ func (w WriteRes) Wire() []byte {
 }
 
 // WriteOn performs c.Write(p) (which may sleep in the IAT modes) and collects the segments.
-func WriteOn(sc *vlib.ScriptConn, c net.Conn, p []byte) WriteRes {
+// If the call has not returned after limit, the underlying conn is closed (so that the call
+// ends and stops drawing random bytes) and Stuck is reported.
+func WriteOn(sc *vlib.ScriptConn, c net.Conn, p []byte, limit time.Duration) WriteRes {
 	var res WriteRes
 	op := sc.Start(func() { res.N, res.Err = c.Write(p) })
-	fin, _ := sc.WaitT(op, 120*time.Second)
+	fin, _ := sc.WaitT(op, limit)
 	if !fin {
-		res.Stuck = true
-		return res
+		sc.Close()
+		sc.WaitT(op, 30*time.Second)
+		return WriteRes{Stuck: true, Segs: sc.TakeWrites()}
 	}
 	res.Panic = op.Panic
 	res.Segs = sc.TakeWrites()
@@ -248,12 +251,17 @@ func ReadN(sc *vlib.ScriptConn, c net.Conn, n int) (data []byte, blocked bool, e
 // further network input: (n>0) readable bytes / err / blocked.
 func TryRead(sc *vlib.ScriptConn, c net.Conn) (n int, blocked bool, err error) {
 	buf := make([]byte, 4096)
-	op := sc.Start(func() { n, err = c.Read(buf) })
+	var rn int
+	var rerr error
+	op := sc.Start(func() { rn, rerr = c.Read(buf) })
 	fin := sc.Wait(op)
 	if !fin {
+		// end the blocked call before returning so that it cannot draw random bytes later
+		sc.Close()
+		sc.WaitT(op, 10*time.Second)
 		return 0, true, nil
 	}
-	return n, false, err
+	return rn, false, rerr
 }
 
 // ---------------------------------------------------------------- chunkers
@@ -575,4 +583,33 @@ func ErrClass(err error) string {
 		return "timeout"
 	}
 	return "other:" + err.Error()
+}
+
+// ---------------------------------------------------------------- C02: forging from public information
+
+func (r *Ref) CliClone(s, s2 string) { r.call("cli.clone %s %s", s, s2) }
+
+// Forged is what a man in the middle without the bridge's private key can compute.
+type Forged struct {
+	YRepr, Auth, KeySeed []byte
+	OK                   bool
+}
+
+// ForgeNtor: ephemeral key from tape, DH with the impostor's own identity key bPriv, transcript
+// naming bTranscript.
+func (r *Ref) ForgeNtor(nodeID, bTranscript, bPriv, xRepr, tape []byte) Forged {
+	f := r.call("forge.ntor %s %s %s %s %s", vlib.Hex(nodeID), vlib.Hex(bTranscript), vlib.Hex(bPriv), vlib.Hex(xRepr), vlib.Hex(tape))
+	if len(f) == 5 && f[0] == "ok" {
+		return Forged{YRepr: vlib.UnHex(f[1]), Auth: vlib.UnHex(f[2]), KeySeed: vlib.UnHex(f[3]), OK: true}
+	}
+	return Forged{}
+}
+
+// ForgeBlob: Y'|AUTH|pad|M_S|MAC_S with mark and MAC valid under idPub|nodeID for hour.
+func (r *Ref) ForgeBlob(nodeID, idPub, yRepr, auth, pad []byte, hour int64) []byte {
+	f := r.call("forge.blob %s %s %s %s %s %d", vlib.Hex(nodeID), vlib.Hex(idPub), vlib.Hex(yRepr), vlib.Hex(auth), vlib.Hex(pad), hour)
+	if len(f) == 2 && f[0] == "ok" {
+		return vlib.UnHex(f[1])
+	}
+	return nil
 }
